@@ -406,6 +406,12 @@ def _meta(case, ctx):
             return
         except Exception:
             pass
+    if created is None and _conforms(decl, payload) and (not case["timed"] or (isinstance(ts, (int, float)) and not isinstance(ts, bool))) \
+            and shape in ("ok", "subclass", "reordered"):
+        # every declared key present with a value that is an instance of the declared type (instances of subclasses are
+        # instances), no other keys, a proper time stamp: the event must be created
+        ctx.viol(f"conforming-payload-refused:{shape}", {"decl": decl, "payload": repr(payload)[:300], "timed": case["timed"], "check": case["check"]})
+        return
     if created is not None:
         ctx.count("metadata_created")
         if case["check"] and not _conforms(decl, payload):
